@@ -15,17 +15,21 @@ VARIABLE c        \* sequence of [fn, arg, cut]  (cut: this call starts a new ru
 
 \* distinct-but-similar arguments; argument identity is identity of the value as written: 0.0 and -0.0, 1.0 and
 \* 1.00 are different arguments (a function can tell them apart), NaN is one argument
-ArgPool == << I(1), St("1"), VFloat(FZero(1)), VFloat(FZero(-1)), Dc(10, 1), Dc(100, 2), VFloat(FNaN), VVec(<<I(1)>>),
+ArgPool == << I(1), St("1"), VFloat(FZero(1)), VFloat(FZero(-1)), Dc(10, 1), Dc(100, 2), VFloat(FNaN),
+              VMap(<< <<S("x"), I(1)>>, <<S("y"), I(2)>> >>), VMap(<< <<S("x: i1, y"), I(2)>> >>), VVec(<<I(1)>>),
               Fl(1, 1, 0), St("i1"), Dc(1, 0), VMap(<< <<S("a"), I(1)>> >>), I(2) >>
 Args == SubSeq(ArgPool, 1, NArgs)
 Tagged == <<[r |-> "tagged"]>>
 Funcs == << [name |-> S("f"), cacheable |-> TRUE, suspend |-> 0, script |-> Tagged],
             [name |-> S("g"), cacheable |-> FALSE, suspend |-> 0, script |-> Tagged],
-            [name |-> S("h"), cacheable |-> TRUE, suspend |-> 0, script |-> <<[r |-> "fail", msg |-> S("h1")], [r |-> "tagged"]>>] >>
+            [name |-> S("h"), cacheable |-> TRUE, suspend |-> 0, script |-> <<[r |-> "fail", msg |-> S("h1")], [r |-> "tagged"]>>],
+            \* e: its second invocation fails with an error that is itself a library error value
+            [name |-> S("e"), cacheable |-> FALSE, suspend |-> 0, script |-> <<[r |-> "tagged"], [r |-> "failtype"], [r |-> "tagged"]>>] >>
+NF == Len(Funcs)
 
 Init == c = <<>>
 Next == /\ Len(c) < MaxCalls
-        /\ \E f \in 1..3, a \in 1..NArgs, cut \in BOOLEAN :
+        /\ \E f \in 1..NF, a \in 1..NArgs, cut \in BOOLEAN :
              /\ (c = <<>> => cut)
              /\ c' = Append(c, [fn |-> f, arg |-> a, cut |-> cut])
 
@@ -55,7 +59,7 @@ Live(run, s) == s.k <= Len(Groups[s.r]) /\ run.outs[s.ev][s.r].o.ok
 SiteFn(s) == Funcs[Groups[s.r][s.k].fn]
 SiteArg(s) == Args[Groups[s.r][s.k].arg]
 SiteRes(run, s) == run.outs[s.ev][s.r].o.v.xs[s.k]           \* [arg, n]
-InvokedOk(l) == FnResult(Funcs[CHOOSE i \in 1..3 : Funcs[i].name = l.f], l.arg, l.n).ok
+InvokedOk(l) == FnResult(Funcs[CHOOSE i \in 1..NF : Funcs[i].name = l.f], l.arg, l.n).ok
 
 \* a result is never reused for a different function or argument, nor from another evaluation
 KeyedByBothAndFreshP(run, live) ==
@@ -67,19 +71,20 @@ KeyedByBothAndFreshP(run, live) ==
 AtMostOnceAndHitsSeeFirstP(run, live) ==
   LET log == run.gs.calls IN
   /\ \A i, j \in 1..Len(log) :
-        (i # j /\ log[i].ev = log[j].ev /\ log[i].f = log[j].f /\ log[i].arg = log[j].arg /\ log[i].f # S("g"))
+        (i # j /\ log[i].ev = log[j].ev /\ log[i].f = log[j].f /\ log[i].arg = log[j].arg /\ log[i].f \notin {S("g"), S("e")})
           => ~(InvokedOk(log[i]) /\ InvokedOk(log[j]))
   /\ \A s, t \in live : (s.ev = t.ev /\ SiteFn(s).cacheable /\ SiteFn(s) = SiteFn(t) /\ SiteArg(s) = SiteArg(t))
           => SiteRes(run, s) = SiteRes(run, t)
 \* non-cacheable: every call is an invocation of its own
 NonCacheableAlwaysInvokedP(run, live) ==
-  \A s, t \in live : (s # t /\ ~SiteFn(s).cacheable /\ ~SiteFn(t).cacheable) => SiteRes(run, s).xs[2] # SiteRes(run, t).xs[2]
+  \A s, t \in live : (s # t /\ ~SiteFn(s).cacheable /\ SiteFn(s) = SiteFn(t)) => SiteRes(run, s).xs[2] # SiteRes(run, t).xs[2]
 \* failures are not remembered: the only failing outcome is h's first invocation, and it names h
 FailuresNamedNotCachedP(run) ==
-  /\ \A e \in 1..NEvals, r \in 1..Len(Groups) : ~run.outs[e][r].o.ok => run.outs[e][r].o = FnErr(S("h"), S("h1"))
+  /\ \A e \in 1..NEvals, r \in 1..Len(Groups) : ~run.outs[e][r].o.ok =>
+        run.outs[e][r].o \in {FnErr(S("h"), S("h1")), FnErr(S("e"), InvalidTypeText)}
   /\ Cardinality({i \in 1..Len(run.gs.calls) : run.gs.calls[i].f = S("h") /\ run.gs.calls[i].n = 1}) <= 1
 MachineRefinesDenP(run) ==
-  LET d1 == DenRuleSet(RS, Input, 1, [j \in 1..3 |-> 0]) IN
+  LET d1 == DenRuleSet(RS, Input, 1, [j \in 1..NF |-> 0]) IN
   /\ run.outs[1] = d1.outcomes
   /\ (NEvals >= 2 => run.outs[2] = DenRuleSet(RS, Input, 2, d1.st.counts).outcomes)
 
